@@ -21,6 +21,8 @@ SAN = "-fsanitize=address,undefined -fno-sanitize-recover=all"
 FLAVOURS = {
     "asan": dict(cxx="g++", flags=f"-O1 -g -fno-omit-frame-pointer {SAN} -ffp-contract=off"),
     "asanO0": dict(cxx="g++", flags=f"-O0 -g -fno-omit-frame-pointer {SAN} -ffp-contract=off"),
+    # embedded-style build without exception support: selects tetl's "#if !defined(__cpp_exceptions)" branches
+    "asannx": dict(cxx="g++", flags=f"-O1 -g -fno-omit-frame-pointer {SAN} -ffp-contract=off -fno-exceptions"),
     "plain": dict(cxx="g++", flags="-O2 -g0 -ffp-contract=off"),
     "O0": dict(cxx="g++", flags="-O0 -g0 -ffp-contract=off"),
     "vg": dict(cxx="g++", flags="-O1 -g -ffp-contract=off", wrap=[
